@@ -178,6 +178,81 @@ def collect(src: str) -> List[Site]:
     return out  # type: ignore
 
 
+C_FILES = [
+    "plugins/fcp_can_c/templates/can_device_c.jinja",
+    "plugins/fcp_can_c/templates/can_signal_parser.c",
+    "plugins/fcp_cpp/fcp_cpp/buffer.h",
+    "plugins/fcp_cpp/fcp_cpp/decoders.h",
+    "plugins/fcp_cpp/fcp_cpp/can_dynamic_schema.h",
+    "plugins/fcp_cpp/fcp_cpp/can_static_schema.h",
+    "plugins/fcp_cpp/fcp_cpp/dynamic.h.j2",
+    "plugins/fcp_cpp/fcp_cpp/fcp.h.j2",
+]
+
+import re
+
+_C_RULES = [
+    (re.compile(r"(?<=[\w\)\]] )<(?= [\w\(\-])"), "<=", "c cmp <-><="),
+    (re.compile(r"(?<=[\w\)\]] )<=(?= [\w\(\-])"), "<", "c cmp <=-><"),
+    (re.compile(r"(?<=[\w\)\]] )>(?= [\w\(\-])"), ">=", "c cmp >->>="),
+    (re.compile(r"(?<=[\w\)\]] )>=(?= [\w\(\-])"), ">", "c cmp >=->>"),
+    (re.compile(r"=="), "!=", "c cmp ==->!="),
+    (re.compile(r"!="), "==", "c cmp !=->=="),
+    (re.compile(r"(?<=[\w\)\]] )\+(?= [\w\(])"), "-", "c arith +->-"),
+    (re.compile(r"(?<=[\w\)\]] )-(?= [\w\(])"), "+", "c arith -->+"),
+    (re.compile(r"(?<=[\w\)\]] )<<(?= [\w\(])"), ">>", "c shift <<->>>"),
+    (re.compile(r"(?<=[\w\)\]] )>>(?= [\w\(])"), "<<", "c shift >>-><<"),
+    (re.compile(r"(?<=[\w\)\]] )&(?= [\w\(~])"), "|", "c bit &->|"),
+    (re.compile(r"(?<=[\w\)\]] )\|(?= [\w\(~])"), "&", "c bit |->&"),
+    (re.compile(r"&&"), "||", "c bool &&->||"),
+    (re.compile(r"\|\|"), "&&", "c bool ||->&&"),
+    (re.compile(r"(?<=[\w\)\]])\+\+"), "--", "c ++->--"),
+    (re.compile(r"(?<=\w )\+=(?= )"), "-=", "c +=->-="),
+    (re.compile(r"(?<=\w )\|=(?= )"), "&=", "c |=->&="),
+]
+_C_NUM = re.compile(r"(?<![\w.\"<'])(\d+)(?![\w.\">'])")
+
+
+def collect_c(src: str):
+    """Text-level mutants for the C / C++ run-time sources and templates (comment, preprocessor,
+    jinja-statement and string-only lines are skipped)."""
+    sites = []
+    off = 0
+    in_block_comment = False
+    for lineno, line in enumerate(src.splitlines(keepends=True), 1):
+        body = line
+        stripped = body.strip()
+        start = off
+        off += len(line.encode())
+        if in_block_comment:
+            if "*/" in stripped:
+                in_block_comment = False
+            continue
+        if stripped.startswith("/*"):
+            if "*/" not in stripped:
+                in_block_comment = True
+            continue
+        if not stripped or stripped.startswith(("//", "#", "*", "{#")) or "cout" in stripped or "cerr" in stripped \
+                or "stream" in stripped or "template" in stripped or "throw" in stripped or "assert" in stripped:
+            continue
+        code = body.split("//")[0]
+        # blank out string literals so that nothing inside them is mutated
+        masked = re.sub(r'"(?:[^"\\]|\\.)*"', lambda m: " " * len(m.group(0)), code)
+        if masked.encode() != masked.encode("ascii", "ignore"):
+            continue
+        for rx, new, op in _C_RULES:
+            for m in rx.finditer(masked):
+                sites.append((start + m.start(), start + m.end(), new, op, lineno))
+        for m in _C_NUM.finditer(masked):
+            v = int(m.group(1))
+            if v > 4096:
+                continue
+            sites.append((start + m.start(1), start + m.end(1), str(v + 1), f"c const {v}->{v + 1}", lineno))
+            if v > 0:
+                sites.append((start + m.start(1), start + m.end(1), str(v - 1), f"c const {v}->{v - 1}", lineno))
+    return sorted(set(sites))
+
+
 def main() -> int:
     args = sys.argv[1:]
     root, out = args[0], args[1]
@@ -192,6 +267,8 @@ def main() -> int:
             seed = int(args[i + 1]); i += 2
         else:
             files.append(args[i]); i += 1
+    if files == ["--c"]:
+        files = C_FILES
     files = files or DEFAULT_FILES
     os.makedirs(out, exist_ok=True)
     rng = random.Random(seed)
@@ -203,15 +280,16 @@ def main() -> int:
             continue
         src = open(path).read()
         data = src.encode()
-        sites = collect(src)
+        sites = collect(src) if rel.endswith(".py") else collect_c(src)
         if per_file is not None and len(sites) > per_file:
             sites = sorted(rng.sample(sites, per_file))
         for s, e, new, op, line in sites:
             mutated = (data[:s] + new.encode() + data[e:]).decode()
-            try:
-                compile(mutated, rel, "exec")
-            except SyntaxError:
-                continue
+            if rel.endswith(".py"):
+                try:
+                    compile(mutated, rel, "exec")
+                except SyntaxError:
+                    continue
             if mutated == src:
                 continue
             diff = "".join(difflib.unified_diff(src.splitlines(keepends=True), mutated.splitlines(keepends=True),
